@@ -310,8 +310,17 @@ package jsonrpc2
 //@   ensures @other-errors-look-up-their-wrapped-code err != nil && !typeIs(err, *WireError) ==> result != nil && calls(findWrapped) == 1 && callArg(findWrapped, 1, 0) == err
 
 // EncodeMessage only reads the message (frame checked): it fills a local wire struct and marshals it.
+// EncodeMessage: what goes on the wire is what the JSON encoder produces for the whole message (version tag plus the
+// members the message put into the wire struct) - never raw params or result bytes spliced in: the encoder validates
+// and compacts them, which is what keeps one message on one line (newline-delimited framing) and in one data field
+// (SSE framing) whatever white space a forwarded payload carries.
 //@ func EncodeMessage [C19, C10, C08]
+//@   track jsonMarshal as encode inline
+//@   track marshal as fill
 //@   modifies extern
+//@   ensures @the-whole-message-goes-through-the-json-encoder calls(fill) == 1 && calls(encode) == 1 && callArg(fill, 1, 1) == callArg(encode, 1, 0).(*wireCombined) && callArg(fill, 1, 0) == msg
+//@   ensures @the-encoding-is-the-encoders-output result.1 == nil ==> callResult(encode, 1, 1) == nil && result.0 == callResult(encode, 1, 0)
+//@   ensures @an-unencodable-message-is-an-error callResult(encode, 1, 1) != nil ==> result.1 != nil && len(result.0) == 0
 
 // ---------------------------------------------------------------------------------------------
 // C04 (receiver side): Cancel(id) cancels at most the one request indexed under id
